@@ -198,19 +198,48 @@ impl<T> NFA<T> {
     }
 
     /// For `a` regular expression it is equivalent to `a+`
-    pub fn some(mut self) -> Self {
-        if let Some(stop) = self.states.get_mut(&self.stop) {
-            stop.epsilons.insert(self.start);
-        }
-        self
+    pub fn some(self) -> Self {
+        self.repeat(false, true)
     }
 
     /// For `a` regular expression it is equivalent to `a?`
-    pub fn optional(mut self) -> Self {
-        if let Some(start) = self.states.get_mut(&self.start) {
-            start.epsilons.insert(self.stop);
+    pub fn optional(self) -> Self {
+        self.repeat(true, false)
+    }
+
+    /// Wrap automaton in a fresh pair of start and stop states, `skip` adds a way
+    /// around the automaton and `again` a way back to its beginning.
+    ///
+    /// Epsilon edges must not be added to the states of the automaton itself: its
+    /// start can have incoming edges and its stop outgoing ones (a repetition at
+    /// the beginning or at the end of a sequence), which would make `(a+b)?c`
+    /// match `ac`.
+    fn repeat(self, skip: bool, again: bool) -> Self {
+        // add offset of 2 to state ids
+        let (mut states, ends) = Self::merge_states(once(self), 2);
+        let (from, to) = ends[0];
+
+        let start = NFAStateId(0);
+        let stop = NFAStateId(1);
+        let mut start_state = NFAState::new();
+        start_state.epsilons.insert(from);
+        if skip {
+            start_state.epsilons.insert(stop);
         }
-        self
+        if let Some(to_state) = states.get_mut(&to) {
+            to_state.epsilons.insert(stop);
+            if again {
+                to_state.epsilons.insert(from);
+            }
+        }
+        states.insert(start, start_state);
+        states.insert(stop, NFAState::new());
+
+        Self {
+            start,
+            stop,
+            states,
+        }
     }
 
     /// For `a` regular expression it is equivalent to `a*`
